@@ -359,15 +359,16 @@ def run(tier, t0, only_pairs=None):
                     for i in range(m):
                         tasks.append((an, bn, warm, 'line', k, solo_vals, (m, i) if m > 1 else None))
     if tier == 'thorough':
-        short = ['cell_to_lonlat', 'scalars', 'scalars_b', 'uncompact_low', 'children_parent', 'uncompact', 'compact', 'cell_to_lonlat_r4', 'lonlat_to_cell_r2', 'cell_to_lonlat_r29_centre']
+        short = ['cell_to_lonlat', 'scalars', 'scalars_b', 'uncompact_low', 'children_parent', 'uncompact', 'compact', 'cell_to_lonlat_r4', 'cell_to_lonlat_r29_centre', 'hilbert_a']
         for an in short:
             for bn in B_QUICK + ['scalars_c']:
-                tasks.append((an, bn, False, 'instruction', k, solo_vals, None))
+                for i in range(4):      # bytecode-instruction granularity: ~5x more points than lines, split into 4 residue classes
+                    tasks.append((an, bn, False, 'instruction', k, solo_vals, (4, i)))
     tasks = common.rotate(tasks, common.seed())
     cost = {'lonlat_to_cell_r2': 9, 'lonlat_to_cell_r7_edge': 8, 'boundary_seg2_edge': 7, 'boundary_auto_r4': 6, 'lonlat_to_cell_r29_centre_a': 6, 'lonlat_to_cell_r12': 8}
     tasks.sort(key=lambda t: -cost.get(t[0], 1))          # longest explorations first (load balance); stable, so the seed rotation survives inside a class
     allsites = set()
-    for _, part in common.fresh_map(pair, tasks):
+    for _, part in common.fresh_map(pair, tasks, timeout=3600):
         if isinstance(part, Exception):
             raise part
         allsites |= part.sites
